@@ -1,10 +1,18 @@
-(* C20 — JSON Path: CreatePath is total.  The parser model (Model/Path.v)
-   carries the offset arithmetic of PathBuilder as written and turns every
-   buf[k] into a checked read.  Evaluation (Extract/Unmarshal/Get), purity
-   under reuse and concurrent use are checked by the differential harness
-   against a reference evaluator and against a fresh Path per call. *)
+(* C20 — JSON Path extraction is a pure, correct function of path and document.
+   CreatePath: the parser model (Model/Path.v) carries the offset arithmetic of
+   PathBuilder as written and turns every buf[k] into a checked read; it is
+   total.  Extract: the evaluation model (Model/PathEval.v) walks a document
+   tree with the cursor Path.node as the decoders do, with the answers of
+   Field / Index per node kind read from path.go by the translator
+   (Gen/PathShape.v).  Proved: one Path value answers every document as a fresh
+   Path would, whatever documents it met before (extractFromPath evaluates on a
+   copy; without the copy the statement is false); the answer is the reference
+   evaluation, in document order, for every path without recursive descent on
+   every document whose values have the kinds the selectors expect; outside
+   that class lie exactly the three recorded deviations, each with a witness.
+   Path.Unmarshal / Path.Get and concurrent use are compared by the harness. *)
 From Coq Require Import NArith ZArith List Bool.
-From GJ Require Import Base.Bytes Model.Path Proofs.PathP.
+From GJ Require Import Base.Bytes Spec.Json Model.Enc Model.Path Proofs.PathP Gen.PathShape Model.PathEval Proofs.PathEvalP.
 Import ListNotations.
 Open Scope N_scope.
 
@@ -31,3 +39,55 @@ Example C20_ex3 : build [36; 46; 46; 97] = BOk [NRec [97]] false false.
 Proof. vm_compute. reflexivity. Qed.
 Example C20_ex4 : print_path [NRec [97]] = [46; 46; 97; 46; 97].
 Proof. vm_compute. reflexivity. Qed.
+
+(* ---- evaluation ---- *)
+(* what the translator read from path.go, map.go, slice.go, interface.go and decode.go is what the model evaluates with *)
+Theorem C20_source_shapes : path_node_sems = std_sems /\ extract_on_copy = true /\ path_loops_as_modelled = true.
+Proof. repeat split; reflexivity. Qed.
+
+(* purity: for every Path, every sequence of earlier documents (answered or failed) and every next document *)
+Theorem C20_extract_pure : forall nodes before doc,
+  last (run path_node_sems extract_on_copy (is_root nodes) (expand nodes) (before ++ [doc])) None
+  = fst (extract_call path_node_sems extract_on_copy (is_root nodes) (expand nodes) doc).
+Proof. intros. rewrite (proj1 (proj2 C20_source_shapes)). apply extract_pure. Qed.
+Print Assumptions C20_extract_pure.
+
+(* the repaired defect: evaluated on the caller's Path, a failed descent leaves the cursor moved *)
+Theorem C20_shared_cursor_refuted :
+  exists nodes before doc,
+    last (run path_node_sems false (is_root nodes) (expand nodes) (before ++ [doc])) None
+    <> fst (extract_call path_node_sems false (is_root nodes) (expand nodes) doc).
+Proof. exists w_path, [w_bad], w_good. exact extract_shared_cursor_refuted. Qed.
+
+(* correctness: child, index and wildcard selectors, quoted or not, in document order *)
+Theorem C20_extract_is_reference : forall nodes doc, fits nodes doc = true ->
+  fst (extract_call path_node_sems extract_on_copy (is_root nodes) (expand nodes) doc)
+  = Some (map RTree (ref_eval nodes doc)).
+Proof. intros. rewrite (proj1 C20_source_shapes). apply extract_ref. assumption. Qed.
+Print Assumptions C20_extract_is_reference.
+
+(* the three open findings are outside `fits` and really deviate *)
+Theorem C20_selector_on_scalar_refuted :
+  fst (ev std_sems (JLeaf (TNum [49])) (expand [NSel [120]])) <> Some (map RTree (ref_eval [NSel [120]] (JLeaf (TNum [49])))).
+Proof. exact selector_on_scalar_refuted. Qed.
+Theorem C20_recursive_descent_shallow_refuted :
+  let d := JObj [([98], false, JObj [([97], false, JLeaf (TNum [49]))])] in
+  fst (ev std_sems d (expand [NRec [97]])) <> Some (map RTree (ref_eval [NRec [97]] d)).
+Proof. exact recursive_descent_shallow_refuted. Qed.
+Theorem C20_wildcard_then_selector_refuted :
+  let d := JArr [JObj [([97], false, JLeaf (TNum [49]))]; JArr [JLeaf (TNum [50])]] in
+  fst (ev std_sems d (expand [NAll; NSel [97]])) = None /\ ref_eval [NAll; NSel [97]] d = [JLeaf (TNum [49])].
+Proof. exact wildcard_then_selector_refuted. Qed.
+
+(* non-vacuity: $.b.c[*].a on {"a":1,"b":{"a":2,"c":[{"a":3},{"a":4,"b":[5,6]}]}} fits and selects 3 and 4;
+   $['b'].c[1].b[0] selects 5 *)
+Definition C20_doc : jv :=
+  JObj [([97], false, JLeaf (TNum [49]));
+        ([98], false, JObj [([97], false, JLeaf (TNum [50]));
+                            ([99], false, JArr [JObj [([97], false, JLeaf (TNum [51]))];
+                                                JObj [([97], false, JLeaf (TNum [52])); ([98], false, JArr [JLeaf (TNum [53]); JLeaf (TNum [54])])]])])].
+Example C20_ex5 :
+  fits [NSel [98]; NSel [99]; NAll; NSel [97]] C20_doc = true /\
+  extract_text [36; 46; 98; 46; 99; 91; 42; 93; 46; 97] C20_doc = [79; 51; 10; 52; 10] /\
+  extract_text [36; 91; 39; 98; 39; 93; 46; 99; 91; 49; 93; 46; 98; 91; 48; 93] C20_doc = [79; 53; 10].
+Proof. vm_compute. repeat split; reflexivity. Qed.
